@@ -37,6 +37,8 @@ func verifEncrOK(id, at, av uint16) bool {
 // converts back to the same single-choice proposal
 //
 //verif:novariant security.GenerateRandomNumber#loop1
+//verif:bytes
+//verif:summary security/lib.PrfPlus
 func lemma_C11_NewIKESAKey(encrID, at, av, integID, prfID, dhID uint16, ke, nonce []byte, si, sr uint64) {
 	p := verifProposal(encrID, at, av, integID, prfID, dhID, true, 0, false)
 	sa, _, err := NewIKESAKey(p, ke, nonce, si, sr)
